@@ -7,7 +7,7 @@ import ast
 from ..cfg import build_cfg, calls_in, node_calls
 from ..core import Ctx, property_info, rule, share
 from ..model import AnalysisError, FuncInfo, walk_no_nested
-from ..q import A, Dispatch, L, arg_forms, asrc, call_name_of, flows, func_text, leaves_at, node_containing, raw_forms, return_values, bound_arg, enum_members, is_self_attr, kwarg, stores, unparse
+from ..q import A, Dispatch, L, passes, value_texts, call_param, leaf_conditions, arg_forms, asrc, call_name_of, flows, func_text, leaves_at, names_from_calls, node_containing, raw_forms, reach_table, cmp_atom, return_values, bound_arg, enum_members, is_self_attr, kwarg, stores, unparse
 from .c03 import declare_before_use, event_grammar, writer_typestate
 
 M = "xsdata.formats.dataclass.models"
@@ -39,17 +39,27 @@ def _true_flag_stores(nodes) -> set[str]:
 
 
 def _kind_chain(ctx: Ctx) -> tuple[dict[str, str], str | None]:
-    """XmlVar.__init__ partially evaluated per xml_type constant: constant -> the kind flag set to True; flag of the default."""
+    """XmlVar.__init__ partially evaluated per xml_type constant: constant -> the kind flag set to True; flag of the default.
+
+    Conditions that do not test xml_type (a field typed with a model is always an element) stay open, so the flag they select is reachable
+    under every constant; a flag reachable under several constants is discounted wherever a constant also selects a flag of its own."""
     init = ctx.repo.func(f"{M}.elements:XmlVar.__init__")
-    # `or self.clazz` (a field typed with a model is always an element) is the one non-key condition of the dispatch
-    d = Dispatch(init.node, is_subject=lambda e: unparse(e) == "xml_type", extra=lambda t: False if unparse(t) == "self.clazz" else None)
-    out: dict[str, str] = {}
-    for key in sorted(d.keys):
-        if key.startswith("XmlType."):
-            flags = _true_flag_stores(d.under(key))
-            out[key.split(".", 1)[1]] = next(iter(flags)) if len(flags) == 1 else "?"
+    d = Dispatch(init.node, is_subject=lambda e: unparse(e) == "xml_type")
+    fl = {key: _true_flag_stores(d.under(key)) for key in sorted(d.keys) if key.startswith("XmlType.")}
     ef = _true_flag_stores(d.under(None))
-    return out, (next(iter(ef)) if len(ef) == 1 else None)
+    every = [ef, *fl.values()]
+    common = {f for f in set().union(*every) if sum(1 for x in every if f in x) > 1}
+
+    def pick(flags: set[str]) -> str | None:
+        own = flags - common
+        if len(own) == 1:
+            return next(iter(own))
+        if not own and len(flags) == 1:
+            return next(iter(flags))
+        return None
+
+    out = {key.split(".", 1)[1]: pick(flags) or "?" for key, flags in fl.items()}
+    return out, pick(ef)
 
 
 def _meta_keyword_names(build: FuncInfo) -> dict[str, str]:
@@ -188,33 +198,48 @@ def kind_totality(ctx: Ctx) -> None:
                msg="fields emitted out of declaration order")
 
 
+def _override_else_field(fi: FuncInfo, call: ast.Call, e: ast.expr | None, param: str, field: str) -> bool:
+    """The argument is the caller's override when given, else the field's own value: `param or var.field` in any spelling (conditional
+    expression, if/else temporary) - the override first."""
+    g = build_cfg(fi.node)
+    n = node_containing(g, call)
+    if e is None or n is None:
+        return False
+    got: dict[str, set] = {}
+    for leaf, chain in flows(fi, n, e):
+        got.setdefault(unparse(leaf), set()).update(leaf_conditions(fi, n, leaf, chain))
+    return set(got) == {param, field} and ("_", False) in got[field] and ("_", False) not in got[param]
+
+
 @rule("C01.R2")
 def conversion_parameters(ctx: Ctx) -> None:
     """Serializer and parser hand the same conversion parameters (format, ns_map, types, tokens, default) to the converter."""
+    P = lambda fi, c, param, *texts: passes(ctx, fi, c, param, *texts)  # noqa: E731
     ep = ctx.repo.func(f"{SER}:EventGenerator.encode_primitive")
-    sers = [c for c in calls_in(ep.node) if unparse(c.func) == "converter.serialize"]
-    ctx.ob("encode_primitive: converter.serialize(value, format=var.format)", bool(sers) and all(kwarg(c, "format") is not None and unparse(kwarg(c, "format")) == "var.format" for c in sers),
+    sers = [c for c in calls_in(ep.node) if func_text(ep, c) == "converter.serialize"]
+    ctx.ob("encode_primitive: converter.serialize(value, format=var.format)", bool(sers) and all(P(ep, c, "format", "var.format") for c in sers),
            at=ep, construct="serialize format", msg="the field's format is not applied when writing (dates/bytes cannot be read back)")
     # enums and arrays are unwrapped recursively with the same var
-    rec = [c for c in calls_in(ep.node) if unparse(c.func) == "cls.encode_primitive"]
-    ctx.ob("encode_primitive recursion keeps the same var", len(rec) >= 2 and all(len(c.args) == 2 and unparse(c.args[1]) == "var" for c in rec), at=ep, construct="recursive var", msg="format lost for list/enum members")
+    rec = [c for c in calls_in(ep.node) if func_text(ep, c) in ("cls.encode_primitive", "self.encode_primitive")]
+    ctx.ob("encode_primitive recursion keeps the same var", len(rec) >= 2 and all(P(ep, c, "var", "var") for c in rec), at=ep, construct="recursive var", msg="format lost for list/enum members")
     ed = ctx.repo.func(f"{SER}:EventHandler.encode_data")
-    sers = [c for c in calls_in(ed.node) if unparse(c.func) == "converter.serialize"]
-    ctx.ob("encode_data: converter.serialize(data, ns_map=self.ns_map)", bool(sers) and all(kwarg(c, "ns_map") is not None and unparse(kwarg(c, "ns_map")) == "self.ns_map" for c in sers),
+    sers = [c for c in calls_in(ed.node) if func_text(ed, c) == "converter.serialize"]
+    ctx.ob("encode_data: converter.serialize(data, ns_map=self.ns_map)", bool(sers) and all(P(ed, c, "ns_map", "self.ns_map") for c in sers),
            at=ed, construct="serialize ns_map", msg="QName values are written without the in-scope prefixes")
     pv = ctx.repo.func(f"{PAR}.utils:ParserUtils.parse_value")
-    des = [c for c in calls_in(pv.node) if unparse(c.func) == "converter.deserialize"]
+    des = [c for c in calls_in(pv.node) if func_text(pv, c) == "converter.deserialize"]
     ctx.floor("converter.deserialize calls in parse_value", len(des), 2)
     for c in des:
-        ok = all(kwarg(c, k) is not None and unparse(kwarg(c, k)) == k for k in ("ns_map", "format")) and len(c.args) >= 2 and unparse(c.args[1]) == "types"
-        ctx.ob(f"parse_value: converter.deserialize({unparse(c.args[0])}, types, ns_map=ns_map, format=format)", ok, at=pv, node=c, msg="a conversion parameter is not forwarded when reading")
+        ok = P(pv, c, "ns_map", "ns_map") and P(pv, c, "format", "format") and P(pv, c, "types", "types")
+        ctx.ob("parse_value: converter.deserialize(<value>, types, ns_map=ns_map, format=format)", ok, at=pv, node=c, msg="a conversion parameter is not forwarded when reading")
     pvar = ctx.repo.func(f"{PAR}.utils:ParserUtils.parse_var")
-    calls = [c for c in calls_in(pvar.node) if unparse(c.func) == "cls.parse_value"]
-    want = {"value": "value", "types": "types or var.types", "default": "default or var.default", "ns_map": "ns_map", "tokens_factory": "tokens_factory or var.tokens_factory", "format": "format or var.format"}
+    calls = [c for c in calls_in(pvar.node) if func_text(pvar, c) in ("cls.parse_value", "self.parse_value")]
     for c in calls:
-        got = {k.arg: unparse(k.value) for k in c.keywords}
-        for k, v in want.items():
-            ctx.ob(f"parse_var forwards {k}={v}", got.get(k) == v, at=pvar, node=c, construct=f"parse_var {k}", msg=f"{k} is {got.get(k)!r}: the field's own {k} no longer applies")
+        for k in ("value", "ns_map"):
+            ctx.ob(f"parse_var forwards {k}={k}", P(pvar, c, k, k), at=pvar, node=c, construct=f"parse_var {k}", msg=f"{k} is not forwarded")
+        for k in ("types", "default", "tokens_factory", "format"):
+            ctx.ob(f"parse_var forwards {k}={k} or var.{k}", _override_else_field(pvar, c, call_param(ctx, pvar, c, k), k, f"var.{k}"), at=pvar, node=c, construct=f"parse_var {k}",
+                   msg=f"the field's own {k} no longer applies (or no longer yields to the caller's override)")
     if not calls:
         raise AnalysisError("C01.R2: parse_var does not call parse_value")
     # every node that converts text passes its in-scope ns_map
@@ -223,75 +248,146 @@ def conversion_parameters(ctx: Ctx) -> None:
         ci = ctx.repo.cls(f"{PAR}.{cq}")
         for m in ci.methods.values():
             for c in calls_in(m.node):
-                if unparse(c.func) == "ParserUtils.parse_var":
+                if func_text(m, c) == "ParserUtils.parse_var":
                     n += 1
-                    ctx.ob(f"{ci.name}.{m.name}: parse_var(ns_map=self.ns_map)", kwarg(c, "ns_map") is not None and unparse(kwarg(c, "ns_map")) == "self.ns_map", at=m, node=c,
+                    ctx.ob(f"{ci.name}.{m.name}: parse_var(ns_map=self.ns_map)", P(m, c, "ns_map", "self.ns_map"), at=m, node=c,
                            msg="QName / xsi values resolved without the element's in-scope prefixes")
-                    ctx.ob(f"{ci.name}.{m.name}: parse_var(meta=self.meta, var=..., config=self.config|config)", unparse(kwarg(c, "meta") or ast.Constant(0)) == "self.meta"
-                           and L(m, kwarg(c, "config") or ast.Constant(0)) in ("self.config", "_"), at=m, node=c, construct=f"{m.name} meta/config", msg="wrong meta/config passed")
+                    cfg_arg = call_param(ctx, m, c, "config")
+                    cfg_ok = cfg_arg is not None and (any("self.config" in t for t in value_texts(m, c, cfg_arg)) or all(isinstance(x, ast.Name) and x.id in {a.arg for a in m.params} for x in leaves_at(m, c, cfg_arg)))
+                    ctx.ob(f"{ci.name}.{m.name}: parse_var(meta=self.meta, var=..., config=self.config|config)", P(m, c, "meta", "self.meta") and cfg_ok, at=m, node=c, construct=f"{m.name} meta/config", msg="wrong meta/config passed")
     ctx.floor("parse_var call sites in nodes", n, 5)
     # StandardNode uses the xsi:type datatype's own type and format on both sides
     sb = ctx.repo.func(f"{PAR}.nodes.standard:StandardNode.bind")
     for c in calls_in(sb.node):
-        if unparse(c.func) == "ParserUtils.parse_var":
-            ok = "[self.datatype.type]" in raw_forms(sb, c, kwarg(c, "types")) and "self.datatype.format" in raw_forms(sb, c, kwarg(c, "format"))
+        if func_text(sb, c) == "ParserUtils.parse_var":
+            ok = P(sb, c, "types", "[self.datatype.type]") and P(sb, c, "format", "self.datatype.format")
             ctx.ob("StandardNode.bind converts with the xsi:type datatype's type and format", ok, at=sb, node=c, construct="standard datatype params", msg="xsi:type'd value converted with the wrong type/format")
     fx = ctx.repo.func(f"{PAR}.utils:ParserUtils.validate_fixed_value")
-    sers = [c for c in calls_in(fx.node) if unparse(c.func) == "converter.serialize"]
-    ctx.ob("validate_fixed_value serialises the default with the field's format", bool(sers) and all(unparse(kwarg(c, "format") or ast.Constant(0)) == "var.format" for c in sers), at=fx,
+    sers = [c for c in calls_in(fx.node) if func_text(fx, c) == "converter.serialize"]
+    ctx.ob("validate_fixed_value serialises the default with the field's format", bool(sers) and all(P(fx, c, "format", "var.format") for c in sers), at=fx,
            construct="fixed value format", msg="fixed values of formatted fields never match")
+
+
+def _yields_of(fi: FuncInfo, marker: str) -> list[tuple[ast.Yield, list[ast.expr]]]:
+    """Yields of tuples one of whose items is (flows from) the named constant ``marker``: (yield, items after the marker)."""
+    out = []
+    for y in walk_no_nested(fi.node):
+        if isinstance(y, ast.Yield) and isinstance(y.value, ast.Tuple):
+            for k, e in enumerate(y.value.elts):
+                if any(unparse(leaf) == marker for leaf in leaves_at(fi, y, e)):
+                    out.append((y, y.value.elts[k + 1:]))
+                    break
+    return out
+
+
+def _lookup_keys(fi: FuncInfo, mapping: str) -> list[ast.expr]:
+    """Keys under which the parameter ``mapping`` is consulted: m.get(K), m[K], K in m, m.pop(K)."""
+    keys: list[ast.expr] = []
+    for n in walk_no_nested(fi.node):
+        if isinstance(n, ast.Call) and isinstance(n.func, ast.Attribute) and n.func.attr in ("get", "pop") and unparse(n.func.value) == mapping and n.args:
+            keys.append(n.args[0])
+        elif isinstance(n, ast.Subscript) and unparse(n.value) == mapping:
+            keys.append(n.slice)
+        elif isinstance(n, ast.Compare) and len(n.ops) == 1 and isinstance(n.ops[0], (ast.In, ast.NotIn)) and unparse(n.comparators[0]) == mapping:
+            keys.append(n.left)
+    return keys
+
+
+def _table_ob(ctx: Ctx, what: str, fi: FuncInfo, target: ast.AST, atoms: list[dict[str, bool]], want, msg: str, construct: str) -> None:
+    """One obligation from a reach_table; an unrecognisable condition form is noted, not reported."""
+    tab = reach_table(fi, target, atoms, raw=True)
+    if tab is None:
+        ctx.abstain(what, at=fi)
+        return
+    ctx.ob(what, all(tab[k] == want(*k) for k in tab), at=fi, node=target, construct=construct, msg=f"{msg}: executes under {sorted(k for k, v in tab.items() if v)}")
 
 
 @rule("C01.R4")
 def marker_agreement(ctx: Ctx) -> None:
     """The xsi:nil / xsi:type attribute names and literals the writer emits are the ones the reader looks up."""
-    enums = ctx.repo.cls("xsdata.models.enums:QNames")
-    na = next((t for t in ctx.repo.cls(f"{SER}:EventGenerator").methods["next_attribute"].node.body), None)
     nx = ctx.repo.func(f"{SER}:EventGenerator.next_attribute")
-    ys = [y.value for y in walk_no_nested(nx.node) if isinstance(y, ast.Yield) and isinstance(y.value, ast.Tuple)]
-    nil_w = [y for y in ys if unparse(y.elts[0]) == "QNames.XSI_NIL"]
-    type_w = [y for y in ys if unparse(y.elts[0]) == "QNames.XSI_TYPE"]
-    ctx.ob("writer emits QNames.XSI_NIL = 'true' for nillable elements", bool(nil_w) and all(isinstance(y.elts[1], ast.Constant) and y.elts[1].value == "true" for y in nil_w), at=nx, construct="nil written",
-           msg="xsi:nil literal changed")
-    ctx.ob("writer emits QNames.XSI_TYPE as QName(xsi_type)", bool(type_w) and all(unparse(y.elts[1]) == "QName(xsi_type)" for y in type_w), at=nx, construct="type written", msg="xsi:type written differently")
-    g = build_cfg(nx.node)
-    for y, flag in ((nil_w, "nillable"), (type_w, "xsi_type")):
-        for item in y:
-            node = g.node_of(item)
-            tests = [t for t in g.nodes if t.kind == "test" and unparse(t.ast) == flag]
-            ctx.ob(f"next_attribute: {unparse(item.elts[0])} only if {flag}", bool(tests) and node is not None and g.only_if(node.id, tests[0].id, True), at=nx, node=item, msg="marker emitted unconditionally")
+    nil_w = _yields_of(nx, "QNames.XSI_NIL")
+    type_w = _yields_of(nx, "QNames.XSI_TYPE")
+    ctx.floor("marker yields of next_attribute", len(nil_w) + len(type_w), 2)
+    for y, rest in nil_w:
+        vals = [leaf for e in rest[:1] for leaf in leaves_at(nx, y, e)]
+        ctx.ob("writer emits QNames.XSI_NIL = 'true' for nillable elements", bool(vals) and all(isinstance(v, ast.Constant) and v.value == "true" for v in vals), at=nx, node=y, construct="nil written",
+               msg="xsi:nil literal changed")
+        _table_ob(ctx, "next_attribute: QNames.XSI_NIL only if nillable", nx, y, [{"nillable": True}], lambda a: a, "marker emitted regardless of the flag", "nil marker guard")
+    for y, rest in type_w:
+        vals = [leaf for e in rest[:1] for leaf in leaves_at(nx, y, e)]
+        ok = bool(vals) and all(isinstance(v, ast.Call) and unparse(v.func) == "QName" and len(v.args) == 1 and any(unparse(x) == "xsi_type" for x in leaves_at(nx, y, v.args[0])) for v in vals)
+        ctx.ob("writer emits QNames.XSI_TYPE as QName(xsi_type)", ok, at=nx, node=y, construct="type written", msg="xsi:type written differently")
+        _table_ob(ctx, "next_attribute: QNames.XSI_TYPE only if xsi_type", nx, y, [{"xsi_type": True, "xsi_type is not None": True, "xsi_type is None": False}], lambda a: a,
+                  "marker emitted regardless of the value", "type marker guard")
     pn = ctx.repo.func(f"{PAR}.utils:ParserUtils.xsi_nil")
     pt = ctx.repo.func(f"{PAR}.utils:ParserUtils.xsi_type")
-    ctx.ob("reader looks xsi:nil up under QNames.XSI_NIL and compares with constants.XML_TRUE", A("_.get(QNames.XSI_NIL)") in asrc(pn) and A("_ == constants.XML_TRUE") in asrc(pn), at=pn, construct="nil read",
+    keys = _lookup_keys(pn, "attrs")
+    ctx.ob("reader looks xsi:nil up under QNames.XSI_NIL", bool(keys) and all(any(unparse(l) == "QNames.XSI_NIL" for l in leaves_at(pn, k, k)) for k in keys), at=pn, construct="nil read",
            msg="reader and writer disagree on the nil attribute")
+    cmps = [n for n in walk_no_nested(pn.node) if isinstance(n, ast.Compare) and len(n.ops) == 1 and isinstance(n.ops[0], (ast.Eq, ast.NotEq))]
+    lits = {unparse(l) for c in cmps for e in (c.left, c.comparators[0]) for l in leaves_at(pn, c, e)}
+    ctx.ob("reader compares the xsi:nil value with constants.XML_TRUE", "constants.XML_TRUE" in lits or "'true'" in lits, at=pn, construct="nil literal read", msg="reader and writer disagree on the nil literal")
     cmod = ctx.repo.module("xsdata.utils.constants")
     xt = cmod.globals.get("XML_TRUE")
     ctx.ob("constants.XML_TRUE is the literal the writer emits", isinstance(xt, ast.Call) and "'true'" in unparse(xt) or (isinstance(xt, ast.Constant) and xt.value == "true"), at=cmod, node=xt, construct="XML_TRUE",
            msg="XML_TRUE differs from the written literal 'true'")
-    ctx.ob("reader looks xsi:type up under QNames.XSI_TYPE and resolves it through the in-scope map", A("_.get(QNames.XSI_TYPE)") in asrc(pt) and A("QNameConverter.resolve(_, _)") in asrc(pt),
-           at=pt, construct="type read", msg="xsi:type not resolved with the element's prefixes")
+    keys = _lookup_keys(pt, "attrs")
+    ctx.ob("reader looks xsi:type up under QNames.XSI_TYPE", bool(keys) and all(any(unparse(l) == "QNames.XSI_TYPE" for l in leaves_at(pt, k, k)) for k in keys), at=pt, construct="type read",
+           msg="reader and writer disagree on the type attribute")
+    res = [c for c in calls_in(pt.node) if unparse(c.func) == "QNameConverter.resolve"]
+    ctx.ob("reader resolves xsi:type through the element's in-scope map", bool(res) and all(len(c.args) > 1 and any(unparse(l) == "ns_map" for l in leaves_at(pt, c, c.args[1])) for c in res),
+           at=pt, construct="type resolved", msg="xsi:type not resolved with the element's prefixes")
     # convert_element: nil marker for empty nillable values, and the writer drops it when content follows
     ce = ctx.repo.func(f"{SER}:EventGenerator.convert_element")
-    g = build_cfg(ce.node)
-    nil_y = [n for n in g.stmts() if "QNames.XSI_NIL" in unparse(n.ast) and n.kind == "stmt"]
-    t1 = [t for t in g.nodes if t.kind == "test" and unparse(t.ast) == "var.nillable"]
-    t2 = [t for t in g.nodes if t.kind == "test" and unparse(t.ast) == "value"]
-    ok = bool(nil_y) and bool(t1) and bool(t2) and all(g.only_if(n.id, t1[0].id, True) and g.only_if(n.id, t2[0].id, False) for n in nil_y)
-    ctx.ob("convert_element: xsi:nil only for nillable fields with an empty value", ok, at=ce, construct="nil guard", msg="nil marker on non-nillable or non-empty elements")
+    nil_y = _yields_of(ce, "QNames.XSI_NIL")
+    ctx.ob("convert_element writes an xsi:nil marker", bool(nil_y), at=ce, construct="nil marker", msg="nillable elements never carry xsi:nil")
+    for y, _ in nil_y:
+        _table_ob(ctx, "convert_element: xsi:nil only for nillable fields with an empty value", ce, y, [{"var.nillable": True}, {"value": True}], lambda a, b: a and not b,
+                  "nil marker on non-nillable or non-empty elements", "nil guard")
     fl = ctx.repo.func(f"{SER}:EventHandler.flush_start")
-    g = build_cfg(fl.node)
-    pops = [n for n in g.stmts() if "self.attrs.pop(XSI_NIL" in unparse(n.ast)]
-    t = [x for x in g.nodes if x.kind == "test" and unparse(x.ast) == "is_nil"]
-    ctx.ob("flush_start drops xsi:nil exactly when the element has content", bool(pops) and bool(t) and all(g.only_if(p.id, t[0].id, False) for p in pops), at=fl, construct="nil pop", msg="nil attribute kept on non-empty elements")
+    pops = [c for c in calls_in(fl.node) if isinstance(c.func, ast.Attribute) and c.func.attr == "pop" and unparse(c.func.value) == "self.attrs" and c.args
+            and any(unparse(l) == "XSI_NIL" for l in leaves_at(fl, c, c.args[0]))]
+    if pops or "XSI_NIL" not in ast.unparse(fl.node):
+        ctx.ob("flush_start drops the pending xsi:nil attribute", bool(pops), at=fl, construct="nil pop present", msg="nil attribute kept on non-empty elements")
+    for c in pops:
+        _table_ob(ctx, "flush_start drops xsi:nil exactly when the element has content", fl, c, [{"is_nil": True}], lambda a: not a, "nil attribute dropped / kept in the wrong case", "nil pop")
     smod = ctx.repo.module(SER)
     xn = smod.globals.get("XSI_NIL")
-    ctx.ob("serializer XSI_NIL tuple is (XSI namespace, 'nil')", xn is not None and unparse(xn).replace(" ", "") == "(Namespace.XSI.uri,'nil')", at=smod, node=xn, construct="XSI_NIL tuple", msg="popped key differs from the stored key")
+    ctx.ob("serializer XSI_NIL tuple is (XSI namespace, 'nil')", isinstance(xn, ast.Tuple) and len(xn.elts) == 2 and unparse(xn.elts[0]) == "Namespace.XSI.uri" and isinstance(xn.elts[1], ast.Constant)
+           and xn.elts[1].value == "nil", at=smod, node=xn, construct="XSI_NIL tuple", msg="popped key differs from the stored key")
     # ElementNode honours nil: no object unless the class is nillable
     eb = ctx.repo.func(f"{PAR}.nodes.element:ElementNode.bind")
-    g = build_cfg(eb.node)
-    cf = [n for n in g.stmts() if "class_factory" in unparse(n.ast) and n.kind == "stmt"]
-    ts = [x for x in g.nodes if x.kind == "test" and unparse(x.ast) in ("self.xsi_nil", "self.meta.nillable")]
-    ctx.ob("ElementNode.bind builds an object unless xsi:nil is set on a non-nillable class", bool(cf) and len(ts) == 2, at=eb, construct="nil bind", msg="nil handling changed")
+    cf = [c for c in calls_in(eb.node) if func_text(eb, c).endswith("class_factory")]
+    ctx.floor("class_factory calls of ElementNode.bind", len(cf), 1)
+    for c in cf:
+        _table_ob(ctx, "ElementNode.bind builds an object unless xsi:nil is set on a non-nillable class", eb, c, [{"self.xsi_nil": True}, {"self.meta.nillable": True}], lambda a, b: not (a and not b),
+                  "nil handling changed", "nil bind")
+
+
+def wrapper_filter_exact(ctx: Ctx) -> None:
+    """ElementNode.child / bind_object consider a field for an element seen inside a wrapper exactly when the field's wrapper_qname is that
+    wrapper: the code that uses the field (build_node / bind_var / bind_wild_var) runs iff not (wrapper and var.wrapper_qname != wrapper)."""
+    for name, users in (("child", ("build_node",)), ("bind_object", ("bind_var", "bind_wild_var"))):
+        fi = ctx.repo.func(f"{PAR}.nodes.element:ElementNode.{name}")
+        uses = [c for c in calls_in(fi.node) if call_name_of(c) in users]
+        ctx.ob(f"{name}: candidate fields are handed to {' / '.join(users)}", bool(uses), at=fi, construct=f"{name} uses var", msg="field lookup changed")
+        # the names that play the roles: the field = target of the loop over meta.find_children(...); the wrapper = the parameter of that
+        # name or the local taken from pop_wrapper()
+        vars_ = {lp.target.id for lp in walk_no_nested(fi.node) if isinstance(lp, ast.For) and isinstance(lp.target, ast.Name) and any(call_name_of(x) == "find_children" for x in calls_in(lp.iter))}
+        wraps = ({"wrapper"} & {a.arg for a in fi.params}) | names_from_calls(fi.node, ("pop_wrapper",))
+        if len(vars_) != 1 or len(wraps) != 1:
+            ctx.abstain(f"wrapper filter of {name}: roles {sorted(vars_)} / {sorted(wraps)}", at=fi)
+            continue
+        v_, w_ = next(iter(vars_)), next(iter(wraps))
+        for c in uses:
+            tab = reach_table(fi, c, [{w_: True, f"{w_} is not None": True, f"{w_} is None": False}, cmp_atom(f"{v_}.wrapper_qname", "!=", w_)], raw=True)
+            if tab is None:
+                ctx.abstain(f"wrapper filter of {name}", at=fi)
+                continue
+            bad = sorted(k_ for k_, v in tab.items() if v != (not (k_[0] and k_[1])))
+            ctx.ob(f"{name}: a var is skipped exactly when a wrapper was seen and its wrapper_qname differs", not bad, at=fi, node=c, construct=f"{name} wrapper filter",
+                   msg=f"items bound to (or accepted for) a field with another wrapper - or an unwrapped field: (wrapper seen, wrapper_qname differs) rows that differ: {bad}")
 
 
 @rule("C01.R5")
@@ -308,17 +404,18 @@ def wrapper_symmetry(ctx: Ctx) -> None:
              for st, tgt, val in stores(b.node))
     ctx.ob("reader's wrappers map is keyed by var.wrapper_qname -> var.qname", ok, at=b, construct="wrappers map", msg="wrapper map built from another attribute than the one written")
     st = ctx.repo.func(f"{PAR}.bases:NodeParser.start")
-    ctx.ob("NodeParser.start consults meta.wrappers before delegating to child()", A("_ in _.meta.wrappers") in asrc(st) and any(call_name_of(c) == "WrapperNode" and {k.arg for k in c.keywords} >= {"parent", "qname", "ns_map"} for c in calls_in(st.node)), at=st,
+    wcalls = [c for c in calls_in(st.node) if call_name_of(c) == "WrapperNode"]
+    ctx.ob("NodeParser.start creates WrapperNode(parent, qname, ns_map) for wrapper elements", any({k.arg for k in c.keywords} >= {"parent", "qname", "ns_map"} for c in wcalls), at=st,
            construct="wrapper dispatch", msg="wrapper elements treated as unknown children")
+    for c in wcalls:
+        tab = reach_table(st, c, [{"_ in _.meta.wrappers": True, "_ not in _.meta.wrappers": False}])
+        if tab is not None:
+            ctx.ob("NodeParser.start creates the WrapperNode exactly for names in meta.wrappers", tab == {(True,): True, (False,): False}, at=st, node=c, construct="wrapper dispatch guard",
+                   msg=f"wrapper node created under {tab}")
     wn = ctx.repo.func(f"{PAR}.nodes.wrapper:WrapperNode.child")
     ctx.ob("WrapperNode.child delegates to the parent with wrapper=self.qname", any(func_text(wn, c) == "self.parent.child" and "self.qname" in raw_forms(wn, c, kwarg(c, "wrapper")) for c in calls_in(wn.node)), at=wn, construct="wrapper child",
            msg="wrapped items lose their wrapper association")
-    ec = ctx.repo.func(f"{PAR}.nodes.element:ElementNode.child")
-    bo = ctx.repo.func(f"{PAR}.nodes.element:ElementNode.bind_object")
-    for fi in (ec, bo):
-        cmp_ = [x for x in walk_no_nested(fi.node) if isinstance(x, ast.Compare) and len(x.ops) == 1 and isinstance(x.ops[0], (ast.NotEq, ast.Eq)) and any(isinstance(y, ast.Attribute) and y.attr == "wrapper_qname" for y in (x.left, x.comparators[0]))]
-        ctx.ob(f"{fi.name}: a var is skipped when its wrapper_qname differs from the wrapper seen", bool(cmp_), at=fi, construct=f"{fi.name} wrapper filter",
-               msg="items bound to a field with another wrapper")
+    wrapper_filter_exact(ctx)
     # DictEncoder / DictDecoder (JSON) nest under var.wrapper then var.local_name - covered by C04.R2
 
 
@@ -326,22 +423,39 @@ def wrapper_symmetry(ctx: Ctx) -> None:
 def any_type_marker_guard(ctx: Ctx) -> None:
     """convert_element writes the xsi:type of an xs:anyType value for every value except None and the empty string (0 / False / 0.0 included)."""
     ce = ctx.repo.func(f"{SER}:EventGenerator.convert_element")
-    g = build_cfg(ce.node)
-    ys = [n for n in g.stmts() if n.kind == "stmt" and "QNames.XSI_TYPE" in unparse(n.ast)]
-    if len(ys) != 1:
+    ys = _yields_of(ce, "QNames.XSI_TYPE")
+    if not ys:
         raise AnalysisError("C01.R8: xsi:type yield of convert_element not found")
-    y = ys[0]
-    deps_true = [t for t in g.nodes if t.kind == "test" and g.only_if(y.id, t.id, True)]
-    deps_false = [t for t in g.nodes if t.kind == "test" and g.only_if(y.id, t.id, False)]
-    texts_t = [A(unparse(t.ast)) for t in deps_true]
-    bare = [t for t in deps_true + deps_false if isinstance(t.ast, ast.Name) and t.ast.id == "value"]  # `value` and `var` are parameters
-    ok = A("value is not None") in texts_t and A("value != ''") in texts_t and A("var.any_type") in texts_t and not bare
-    ctx.ob("convert_element: the xsi:type marker depends on `value is not None`, `value != \"\"` and var.any_type - never on the truthiness of the value", ok, at=ce, node=y.ast, construct="any_type marker guard",
-           msg="a truthiness test drops the marker for 0, False, 0.0, Decimal(0): the value is written without xsi:type and parses back as the string '0' / 'false'")
-    ds = [t for t in deps_true if L(ce, t.ast) == A("_ != DataType.STRING")]
-    ctx.ob("convert_element: strings are the only datatype written without a marker", len(ds) == 1, at=ce, construct="string exempt", msg="marker exemption changed")
+    for y, _ in ys:
+        atoms = [
+            {"value is not None": True, "value is None": False},
+            {"value != ''": True, "value == ''": False, "'' != value": True, "'' == value": False},
+            {"var.any_type": True},
+            {"value": True},
+        ]
+        tab = reach_table(ce, y, atoms, raw=True)
+        if tab is None:
+            ctx.abstain("any_type marker guard", at=ce)
+        else:
+            bad = sorted(k for k, v in tab.items() if v != (k[0] and k[1] and k[2]))
+            ctx.ob("convert_element: the xsi:type marker is written exactly when `value is not None`, `value != \"\"` and var.any_type hold - never depending on the truthiness of the value", not bad,
+                   at=ce, node=y, construct="any_type marker guard",
+                   msg=f"a truthiness test drops the marker for 0, False, 0.0, Decimal(0) (the value is written without xsi:type and parses back as the string '0' / 'false'), or the guard changed: "
+                       f"(not None, not '', any_type, truthy) rows that differ: {bad[:4]}")
+        tab = reach_table(ce, y, [{"re:[\\w.]+!=DataType\\.STRING": True, "re:[\\w.]+==DataType\\.STRING": False, "re:DataType\\.STRING!=[\\w.]+": True, "re:DataType\\.STRING==[\\w.]+": False,
+                                   "re:[\\w.]+isnotDataType\\.STRING": True, "re:[\\w.]+isDataType\\.STRING": False}], raw=True)
+        if tab is not None and "DataType.STRING" in ast.unparse(ce.node):
+            ctx.ob("convert_element: strings are the only datatype written without a marker", tab == {(True,): True, (False,): False}, at=ce, node=y, construct="string exempt", msg=f"marker exemption changed: {tab}")
 
 
 from .c04 import exact_type_choice_lookup  # noqa: E402
 
 share("C01", "C01.R10", exact_type_choice_lookup)
+
+from .c03 import per_field_metadata_is_independent  # noqa: E402
+
+share("C01", "C01.R11", per_field_metadata_is_independent)  # metadata fidelity: the writer and the reader bind a field with the namespace of the class that declares it
+
+from .c08 import unprefixed_attribute_values_stay_plain  # noqa: E402
+
+share("C01", "C01.R12", unprefixed_attribute_values_stay_plain)  # wildcard attribute values must come back as written
